@@ -294,6 +294,12 @@ func generate0(r *gen.Rand, i int) Input {
 		}
 		return in
 	case 11, 12:
+		if r.Chance(1, 12) {
+			// the layout toUTCString prints, with a year no time value has (15.9.1.1: +-100,000,000 days):
+			// "dates containing illegal element values ... shall cause Date.parse to return NaN" (15.9.4.2)
+			years := []string{"275761", "300000", "1000000", "292277026597", "292277026596", "99999999999999999999", "9223372036854775807", "9223372036854775808", "-271822", "-300000", "-292277022400", "-99999999999999999999", "18446744073709551616", "4294967296000"}
+			return Input{Op: "far", S: []string{"Thu", "Mon", "Sat"}[r.Intn(3)] + ", 01 Jan " + years[r.Intn(len(years))] + " 00:00:00 " + []string{"GMT", "UTC", "+0000"}[r.Intn(3)]}
+		}
 		return Input{Op: "iso", S: genISO(r)}
 	case 13:
 		return genPrim(r)
@@ -341,6 +347,10 @@ func generate0(r *gen.Rand, i int) Input {
 	in := Input{Op: "set", T: gen.F(t), Steps: steps}
 	if r.Chance(1, 8) {
 		in.Wrap = "obj"
+	} else if r.Chance(1, 8) {
+		// the conversion of an argument sets the time of the same object: 15.9.5.28-41 read the
+		// time value first and store the result computed from it, whatever the conversion did
+		in.Wrap = "mut"
 	}
 	return in
 }
@@ -577,7 +587,8 @@ func setOracle(t float64, st Step) float64 {
 var vm *otto.Otto
 var logger *ox.Logger
 
-const prelude = `var tr=[]; function W(i,v){return {valueOf:function(){tr.push(i);return v}}}
+const prelude = `var tr=[], d; function W(i,v){return {valueOf:function(){tr.push(i);return v}}}
+function WM(i,v){return {valueOf:function(){tr.push(i);if(d&&i===0)d.setTime(86400000*(1+tr.length));return v}}}
 function cls(s){return typeof s!=='string'?'?':(s==='Invalid Date'?'I':'S')}`
 
 func theVM() *otto.Otto {
@@ -639,13 +650,16 @@ var accessors = []accessor{
 
 var formatters = []string{"toString", "toDateString", "toTimeString", "toLocaleString", "toLocaleDateString", "toLocaleTimeString", "toUTCString", "toGMTString"}
 
+// wrapFn is the JS helper that wraps arguments in the current case (W, or WM whose valueOf also sets the time of d).
+var wrapFn = "W"
+
 func argList(v *otto.Otto, prefix string, a []gen.F, wrap bool) string {
 	names := make([]string, len(a))
 	for i, x := range a {
 		n := fmt.Sprintf("%s%d", prefix, i)
 		v.Set(n, float64(x))
 		if wrap {
-			n = fmt.Sprintf("W(%d,%s)", i, n)
+			n = fmt.Sprintf("%s(%d,%s)", wrapFn, i, n)
 		}
 		names[i] = n
 	}
@@ -687,7 +701,11 @@ func checkOne(c *run.Ctx, in Input) {
 		}
 		return out, true
 	}
-	wrap := in.Wrap == "obj"
+	wrap := in.Wrap == "obj" || in.Wrap == "mut"
+	wrapFn = "W"
+	if in.Wrap == "mut" {
+		wrapFn = "WM"
+	}
 	switch in.Op {
 	case "acc":
 		t := refdate.TimeClip(float64(in.T))
@@ -935,6 +953,23 @@ func checkOne(c *run.Ctx, in Input) {
 		} else {
 			c.Feature("iso:illegal-element-or-out-of-range")
 		}
+	case "far":
+		v.Set("s", in.S)
+		out, ok := runJS("log(Date.parse(s), new Date(s).getTime())")
+		if !ok {
+			return
+		}
+		c.Eval(2)
+		if out.Err != nil || len(logger.Events) != 1 {
+			fail("Date.parse(far year)", "n:NaN", "throw:"+fmt.Sprint(out.Err), in.S)
+			return
+		}
+		if logger.Events[0] != "n:NaN,n:NaN" {
+			fail("Date.parse(far year)", "n:NaN,n:NaN", logger.Events[0], in.S)
+		}
+		c.Sample(in)
+		c.Feature("op:far-year-text")
+		c.Nontrivial("far|" + in.S)
 	case "prim":
 		t := float64(in.T)
 		exp := refdate.TimeClip(t)
